@@ -98,7 +98,7 @@ func ruleRenderTerminal(w *World, r *Report, pfx string) {
 	bad := ""
 	var wit []string
 	sawTerm, sawRun, sawErr := false, false, false
-	n, over := w.enumPaths(rc, pathOpts{InlineDepth: 0}, func(p *Path) {
+	n, over := w.enumPaths(rc, pathOpts{InlineDepth: 2, Inline: w.helperInline(rc)}, func(p *Path) {
 		if bad != "" || p.Exit != "return" {
 			return
 		}
@@ -127,7 +127,9 @@ func ruleRenderTerminal(w *World, r *Report, pfx string) {
 				bad = "a terminal frame does not carry the bar's shutdown counter"
 			case !okInc:
 				bad = "the shutdown counter is not advanced by one per terminal frame: flush never sees the cancelling value and the bar is never cancelled"
-			case stF[0].Idx > stS[0].Idx || p.idxOfVal(stF[0].Val) > stS[0].Idx:
+			case p.idxOfVal(stF[0].Val) < 0 || p.idxOfVal(stF[0].Val) > stS[0].Idx:
+				// (the value that goes into the frame must have been read before the increment; where the
+				// frame field itself is written - e.g. after a helper returned both - does not matter)
 				bad = "the counter is incremented before it is copied into the frame: the bar is cancelled at its first terminal frame, before its final state (on-complete decorations) was drawn"
 			case len(stRm) != 1 || !isLoad(Val{V: stripConv(stRm[0].Val.V)}, tBState, "rmOnComplete"):
 				bad = "a terminal frame does not carry the remove-on-complete flag"
@@ -1506,7 +1508,7 @@ func ruleErrorPropagation(w *World, r *Report, pfx string) {
 		bad := ""
 		sawDraw := false
 		sawReset := false
-		w.enumPaths(rc, pathOpts{InlineDepth: 0}, func(p *Path) {
+		w.enumPaths(rc, pathOpts{InlineDepth: 2, Inline: w.helperInline(rc)}, func(p *Path) {
 			if p.Exit != "return" {
 				return
 			}
@@ -1520,7 +1522,7 @@ func ruleErrorPropagation(w *World, r *Report, pfx string) {
 				return
 			}
 			isDrawErr := func(v Val) bool {
-				ex, ok := v.V.(*ssa.Extract)
+				ex, ok := p.R(v).V.(*ssa.Extract)
 				return ok && ex.Tuple == ssa.Value(drawCall) && ex.Index == 1
 			}
 			if p.hasCmp(-1, token.NEQ, isDrawErr, isNilVal) {
@@ -1546,7 +1548,7 @@ func ruleErrorPropagation(w *World, r *Report, pfx string) {
 			} else {
 				okExt := false
 				for _, s := range p.storesTo(tFrame, "err") {
-					if ex, ok := s.Val.V.(*ssa.Extract); ok && ex.Index == 1 {
+					if ex, ok := p.R(s.Val).V.(*ssa.Extract); ok && ex.Index == 1 {
 						if c, ok := ex.Tuple.(*ssa.Call); ok && isLoad(Val{V: c.Call.Value}, tBState, "extender") {
 							okExt = true
 						}
